@@ -41,7 +41,7 @@ def gen(tier, rng):
                     add(api="deflate", inp=inp, level=level, wrap=wrap, lbuf=3, calls=calls + [[0, ao, 1 + (k + ao) % 2, 0]] * (4 * n + 80) + [[n, 1 << 16, 2, 0]],
                         meta={"family": "split-marker", "cls": cls})
     # (e) one-shot raw FULL_FLUSH followed by a terminating call: outputs appended
-    for cls, n in [("text", 500), ("random", 300), ("empty", 0), ("runs", 2000)]:
+    for cls, n in [("text", 500), ("random", 300), ("empty", 0), ("runs", 2000), ("zeros", 8), ("zeros", 300), ("ff", 1001), ("zeros", 4096), ("ff", 70000)]:
         a, b = igz.corpus(rng, cls, n), igz.corpus(rng, "text", 200)
         for level in range(4):
             add(api="deflate_stateless", inp=a, level=level, wrap=0, lbuf=3, calls=[[n, n * 2 + 100, 2, 0]], meta={"family": "oneshot-full-flush", "pair": len(scns) + 1})
